@@ -29,6 +29,23 @@
                            UpdateElementProof rewrite in place) are not
                            memory of the inputs (fresh).
    Audit(mem, d)           the harness looks at mem while no call is running.
+   Mutate(key, mem, d, d1, res)
+                           the one kind of operation that is MEANT to write:
+                           UpdateElementProof brings the proof of ONE element
+                           (the cell mem, digest d before and d1 after) up to
+                           date with a block.  Its key is the content of the
+                           cell before together with the update applied; like
+                           every key it does not say how that content was
+                           obtained.  Allowed iff the cell is as it was last
+                           seen and the content it is left with (res) is the
+                           one this key produced before, if it did: the same
+                           content obtained as a decoded copy, expanded from a
+                           multiproof, deep-copied, JSON-decoded or held in
+                           Share()d memory reaches the same content.  Only
+                           seen[mem] moves; every other cell - the
+                           neighbouring elements of the same value, the same
+                           element in every other copy - keeps what Begin and
+                           Audit demand of it: the contents it was seen with.
 
    There is no ordering constraint between calls: every interleaving of Begin
    and End events is a behaviour, so the specification is insensitive to the
@@ -70,6 +87,16 @@ AfterEnd(st, e) ==
 \* ---- Audit ---------------------------------------------------------------
 AuditOK(st, e) == e.mem \in DOMAIN st.seen => st.seen[e.mem] = e.d
 AfterAudit(st, e) == [st EXCEPT !.seen = IF e.mem \in DOMAIN @ THEN @ ELSE (e.mem :> e.d) @@ @]
+
+\* ---- Mutate --------------------------------------------------------------
+\* e = [key, mem, d, d1, res]
+MutCellSame(st, e)   == e.mem \in DOMAIN st.seen => st.seen[e.mem] = e.d       \* nobody else wrote the cell meanwhile
+MutSameResult(st, e) == e.key \in DOMAIN st.memo => st.memo[e.key] = e.res     \* same content + same update => same content
+MutNotInUse(st, e)   == \A i \in DOMAIN st.open : st.open[i].mem # e.mem       \* (environment) no call is reading the cell
+MutOK(st, e) == MutCellSame(st, e) /\ MutSameResult(st, e)
+AfterMut(st, e) ==
+  [st EXCEPT !.seen = (e.mem :> e.d1) @@ @,
+             !.memo = IF e.key \in DOMAIN @ THEN @ ELSE (e.key :> e.res) @@ @]
 
 \* quiescent: every call that began has ended
 Quiet(st) == DOMAIN st.open = {}
